@@ -880,7 +880,16 @@ class Interp:
         elif isinstance(s, ast.Return):
             raise _Return(ev(s.value) if s.value is not None else None)
         elif isinstance(s, ast.If):
-            if self.truth(ev(s.test)):
+            # `if <test>: raise ...` is input validation: a failing sample aborts the whole call, nothing flows
+            validation = len(s.body) == 1 and isinstance(s.body[0], ast.Raise) and not s.orelse
+            if validation:
+                tz.VALIDATION_TEST[0] += 1
+            try:
+                taken = self.truth(ev(s.test))
+            finally:
+                if validation:
+                    tz.VALIDATION_TEST[0] -= 1
+            if taken:
                 self.exec_block(s.body, env, mod, cls, fn)
             else:
                 self.exec_block(s.orelse, env, mod, cls, fn)
